@@ -247,7 +247,12 @@ def _xr_gboxes():
     pix = [(x, y) for y in (0.0, 10.0, 20.0) for x in (0.0, 15.0, 30.0)]
     wld = [(100 + 2.0 * x + 0.01 * x * y, 50 - 1.5 * y + 0.02 * x) for x, y in pix]
     out["awkward_res(7, 9)"] = GeoBox((7, 9), Affine(0.000123456789, 0, 15.000000123, 0, -0.000123456789, 54.1500003), "EPSG:4326")
-    out["gcp(20, 30)"] = GCPGeoBox((20, 30), GCPMapping(np.asarray(pix), np.asarray(wld), "EPSG:4326"))
+    gcp = GCPGeoBox((20, 30), GCPMapping(np.asarray(pix), np.asarray(wld), "EPSG:4326"))
+    out["gcp(20, 30)"] = gcp
+    # derived GCP boxes: their pixel plane is an affine view of the control points' pixel plane
+    out["gcp_cropped(10, 17)"] = gcp[2:12, 3:20]
+    out["gcp_padded(24, 34)"] = gcp.pad(2)
+    out["gcp_zoomed_out(10, 15)"] = gcp.zoom_out(2)
     return out
 
 
@@ -277,7 +282,7 @@ def _xr_samples():
                     yield dict(kind="reproject", gbox=nm, dst=dst, container=container, backing="numpy")
             yield dict(kind="reproject", gbox=nm, dst="EPSG:3857", container="DataArray", backing="dask")
 
-    return "26 GeoBoxes (north-up / mirrored / south-up non-square / rotated / sheared x shapes 7x9, 1x6, 5x1, 1x1, 64x33; one GCP-based) x 3 dimension layouts x numpy/dask round trips; 2 (6 thorough) random sequences of 1-5 operations (slice, reversed, strided, arithmetic, astype, pickle) per GeoBox; 35 reprojections (DataArray/Dataset, to a CRS or to a GeoBox, numpy/dask)", gen()
+    return "30 GeoBoxes (north-up / mirrored / south-up non-square / rotated / sheared x shapes 7x9, 1x6, 5x1, 1x1, 64x33; awkward resolution; GCP-based: plain, cropped, padded, zoomed out) x 3 dimension layouts x numpy/dask round trips; 2 (6 thorough) random sequences of 1-5 operations (slice, reversed, strided, arithmetic, astype, pickle) per GeoBox; 35 reprojections (DataArray/Dataset, to a CRS or to a GeoBox, numpy/dask)", gen()
 
 
 def _gbox_close(r, g, px_tol=1e-6):
@@ -326,16 +331,17 @@ def _xr_oracle(args, run=None):
         r = xx.odc.geobox
         if args["gbox"].startswith("gcp"):
             # GCPGeoBox.__eq__ compares the control-point mapping by IDENTITY (known finding): compare by value
-            same = r is not None and type(r) is type(g) and tuple(r.shape) == tuple(g.shape) and r.crs == g.crs and r._affine == g._affine
-            same = same and np.allclose(r._mapping._pix, g._mapping._pix, atol=1e-9) and np.allclose(r._mapping._wld, g._mapping._wld, atol=1e-9)
+            same = r is not None and type(r) is type(g) and tuple(r.shape) == tuple(g.shape) and r.crs == g.crs
             if not same:
-                fails.append("post:the recovered GCP GeoBox has the same shape, CRS, affine and control points")
+                fails.append("post:the recovered GCP GeoBox has the same shape and CRS")
+                return fails
+            ny_, nx_ = g.shape
+            pts = [(0.5, 0.5), (nx_ - 0.5, 0.5), (0.5, ny_ - 0.5), (nx_ / 2, ny_ / 2), (nx_ * 0.3, ny_ * 0.8)]
+            errs = [np.abs(np.asarray(r.pix2wld(x, y)) - np.asarray(g.pix2wld(x, y))).max() for x, y in pts]
+            if not max(errs) <= 1e-7:
+                fails.append(f"post:the recovered GCP GeoBox maps pixels to the same world locations (max difference {max(errs):.3g} CRS units)")
             elif not (r == g):
                 fails.append("post:the recovered GCP GeoBox compares equal (==)")
-            if same:
-                pts = [(3.0, 4.0), (29.5, 0.5), (12.25, 19.0)]
-                if not all(np.allclose(r.pix2wld(x, y), g.pix2wld(x, y), atol=1e-9) for x, y in pts):
-                    fails.append("post:the recovered GCP GeoBox maps pixels to the same world locations")
             return fails
         if not _gbox_close(r, g):
             fails.append(f"post:reading the GeoBox back through .odc returns the same grid (shape, CRS, affine to 1e-6 of a pixel; got {r!r})")
